@@ -34,23 +34,43 @@ def any_fa_ref(A):
     return nfa_ref(A) if isinstance(A, NFA) else dfa_ref(A)
 
 
-def build_dfa(RD, check_validity=True):
-    delta = {(p, a): q for (p, a, q) in RD[2]}
-    return DFA(set(RD[0]), set(RD[1]), delta, RD[3], set(RD[4]), check_validity=check_validity)
+def _scr(seq, scramble, salt):
+    """deterministic pseudo-random insertion order (set / dict iteration order depends on it)"""
+    seq = list(seq)
+    if scramble is not None:
+        import random
+        random.Random('%s/%s' % (scramble, salt)).shuffle(seq)
+    return seq
+
+
+def _mkset(seq, scramble, salt):
+    s = set()
+    for x in _scr(seq, scramble, salt):
+        s.add(x)
+    return s
+
+
+def build_dfa(RD, check_validity=True, scramble=None):
+    """scramble: seed for the ORDER in which states, symbols and transitions are inserted into the sets and
+    the dict (the observable content is the same; iteration orders differ)"""
+    delta = {}
+    for (p, a, q) in _scr(RD[2], scramble, 'delta'):
+        delta[(p, a)] = q
+    return DFA(_mkset(RD[0], scramble, 'Q'), _mkset(RD[1], scramble, 'Sigma'), delta, RD[3], _mkset(RD[4], scramble, 'F'), check_validity=check_validity)
 
 
 NFA_KINDS = ('defaultdict_set', 'defaultdict_lambda', 'dict_total', 'dict_partial')
 
 
-def build_nfa(RN, eps='', kind='defaultdict_set'):
-    """kind selects the container admitted by the NFA class for delta"""
+def build_nfa(RN, eps='', kind='defaultdict_set', scramble=None):
+    """kind selects the container admitted by the NFA class for delta; scramble: insertion order seed"""
     if kind == 'defaultdict_set':
         delta = defaultdict(set)
     elif kind == 'defaultdict_lambda':
         delta = defaultdict(lambda: set([]))
     else:
         delta = {}
-    for (p, a, q) in RN[2]:
+    for (p, a, q) in _scr(RN[2], scramble, 'delta'):
         key = (p, eps if a is None else a)
         if key not in delta:
             delta[key] = set()
@@ -59,7 +79,7 @@ def build_nfa(RN, eps='', kind='defaultdict_set'):
         for p in RN[0]:
             for a in list(RN[1]) + [eps]:
                 delta.setdefault((p, a), set())
-    return NFA(set(RN[0]), set(RN[1]), delta, RN[3], set(RN[4]), eps)
+    return NFA(_mkset(RN[0], scramble, 'Q'), _mkset(RN[1], scramble, 'Sigma'), delta, RN[3], _mkset(RN[4], scramble, 'F'), eps)
 
 
 # ------------------------------------------------------------------ regexp
@@ -135,12 +155,12 @@ def pda_ref(P):
     return pd.make(P.Q, P.Sigma, P.Gamma, T, P.q0, P.F)
 
 
-def build_pda(RP, eps='', kind='defaultdict_set'):
+def build_pda(RP, eps='', kind='defaultdict_set', scramble=None):
     delta = defaultdict(set) if kind == 'defaultdict_set' else defaultdict(lambda: set([]))
     e = lambda x: eps if x is None else x
-    for (p, a, u, q, v) in RP[3]:
+    for (p, a, u, q, v) in _scr(RP[3], scramble, 'delta'):
         delta[(p, e(a), e(u))].add((q, e(v)))
-    return PDA(set(RP[0]), set(RP[1]), set(RP[2]), delta, RP[4], set(RP[5]), eps)
+    return PDA(_mkset(RP[0], scramble, 'Q'), _mkset(RP[1], scramble, 'Sigma'), _mkset(RP[2], scramble, 'Gamma'), delta, RP[4], _mkset(RP[5], scramble, 'F'), eps)
 
 
 # ------------------------------------------------------------------ TM
